@@ -709,4 +709,67 @@ theorem shared_hang_no_success (strict : Bool) (s : Shared) (h : (sharedPush str
 /-- non-vacuity: the owner's session POST fails in transit, B had joined and stays -/
 example : (sharedPush false ⟨[⟨404, false⟩], .transport, false, [], [], [], []⟩).hangB = true := by decide
 
+/-! ### F30 in general: no request for the config on a tree that does not offer it -/
+
+theorem layerRun_layer (i : Nat) (u : UpScript) : ∀ e ∈ (layerRun i u).1, ∃ up m s, e = .req i up m s := by
+  intro e he
+  unfold layerRun at he
+  simp only at he
+  split at he
+  · simp only [List.mem_map] at he; obtain ⟨x, _, rfl⟩ := he; exact ⟨_, _, _, rfl⟩
+  · split at he
+    · simp only [List.mem_map] at he; obtain ⟨x, _, rfl⟩ := he; exact ⟨_, _, _, rfl⟩
+    · split at he
+      · simp only [List.mem_map] at he; obtain ⟨x, _, rfl⟩ := he; exact ⟨_, _, _, rfl⟩
+      · simp only [List.mem_append, List.mem_map] at he
+        rcases he with ⟨x, _, rfl⟩ | ⟨x, _, rfl⟩ <;> exact ⟨_, _, _, rfl⟩
+
+theorem enumFrom_mem {α} (l : List α) : ∀ (s : Nat) (p : Nat × α), p ∈ enumFrom s l → s ≤ p.1 ∧ p.1 < s + l.length := by
+  induction l with
+  | nil => intro s p h; simp [enumFrom] at h
+  | cons a as ih =>
+    intro s p h
+    simp only [enumFrom, List.mem_cons] at h
+    rcases h with rfl | h
+    · simp
+    · have := ih (s + 1) p h
+      simp only [List.length_cons]; omega
+
+/-- **F30, in general.**  On a tree that does not offer the config (`cfgToo = false`), whatever the
+    registry answers and however the goroutines interleave: every layer request in the log of
+    `Push` carries an index below `m.layers.length` — no request for the config (index
+    `m.layers.length`) is ever made, yet the manifest may be sent (`F30_push_never_offers_config`). -/
+theorem F30_config_never_requested {D : Type} (m : Manifest D) (scripts : List UpScript) (sched : List Nat)
+    (man : List Resp) (tr : List PushEv) (ok : Bool) (h : pushManifest false m scripts sched man = some (tr, ok)) :
+    ∀ i up mth s, PushEv.req i up mth s ∈ tr → i < m.layers.length := by
+  intro i up mth s hmem
+  unfold pushManifest pushTrace at h
+  simp only [pushedLayers, Bool.false_eq_true, if_false] at h
+  split at h
+  · have hbody : ∀ e ∈ (pushBody (pushPending (scripts.take m.layers.length)) sched).1,
+        ∀ i up mth s, e = PushEv.req i up mth s → i < m.layers.length := by
+      intro e he i up mth s heq
+      obtain ⟨l, hl, hel⟩ := pushBody_sub sched _ _ he
+      simp only [pushPending, List.mem_map] at hl
+      obtain ⟨⟨j, u⟩, hj, rfl⟩ := hl
+      obtain ⟨up', m', s', he'⟩ := layerRun_layer j u e hel
+      rw [heq] at he'
+      injection he' with hij
+      have := enumFrom_mem (scripts.take m.layers.length) 0 (j, u) hj
+      simp only [List.length_take] at this
+      omega
+    split at h
+    · simp only [Option.some.injEq, Prod.mk.injEq] at h
+      obtain ⟨htr, _⟩ := h
+      rw [← htr] at hmem
+      rcases List.mem_append.mp hmem with hm | hm
+      · exact hbody _ hm i up mth s rfl
+      · have := manifestRun_all_manifest man _ hm
+        simp [PushEv.isManifest] at this
+    · simp only [Option.some.injEq, Prod.mk.injEq] at h
+      obtain ⟨htr, _⟩ := h
+      rw [← htr] at hmem
+      exact hbody _ hmem i up mth s rfl
+  · cases h
+
 end OllamaVerif.C09
